@@ -226,8 +226,8 @@ def rule_noop(ctx):
         # ne(class, NoOp): resolve the promoted constant
         cmpc = [c2 for c2 in ev.calls if mir.method_name(c2.name) == 'ne' and ev.dominates(c2.bb, cs.bb)]
         rhs = canon(mir.unname(peel(ev.op_expr(cmpc[0].args[1])))) if cmpc else '?'
-        ctx.check('noop', 'op-pushed-unless-noop', any(x.startswith('ne(classify(self.bytes[self.ip]') for x in g) and rhs == 'Class::NoOp{}', cs,
-                  'Op token pushed under %s with rhs %s' % ([x for x in g if 'ne(' in x], rhs))
+        ctx.check('noop', 'op-pushed-unless-noop', any(x == 'classify(self.bytes[self.ip], ClassifyContext::Legacy{}) != Class::NoOp{}' for x in g) and rhs == 'Class::NoOp{}', cs,
+                  'Op token pushed under %s with rhs %s' % ([x for x in g if 'classify' in x and 'maybe_push_data' not in x], rhs))
         ctx.check('noop', 'op-only-for-zero-length', '%s? <= 0' % lenc in g or '%s <= 0' % lenc in g, cs, 'Op token only when push length is 0')
         ctx.check('noop', 'op-is-the-fetched-opcode', canon(ev.op_expr(cs.args[1])) == 'StackElement::Op{0: self.bytes[self.ip]}', cs, canon(ev.op_expr(cs.args[1])))
     for cs in dat:
@@ -301,7 +301,7 @@ def rule_templates(ctx):
     exp = sorted([
         ('false', ('len(a1) != len(a2)',)),
         ('true', ('len(a1) == len(a2)', 'next(%s) is None' % rng)),
-        ('false', ('len(a1) == len(a2)', 'ne(a1[each(%s)], a2[each(%s)])' % (rng, rng), 'next(%s) is Some' % rng)),
+        ('false', ('a1[each(%s)] != a2[each(%s)]' % (rng, rng), 'len(a1) == len(a2)', 'next(%s) is Some' % rng)),
     ])
     ctx.check('templates', 'matcher:equal-length-and-all-equal', rets == exp, mt, 'match_stack_pattern returns %s' % rets)
     eq = prog.one('<blockchain::proto::script::custom::StackElement as std::cmp::PartialEq>::eq')
